@@ -18,7 +18,7 @@ EXPECTED_LABELS = ['raw: digest == H(H(reference pre-image))', 'raw: HASH_ONE + 
 def bounds(tier):
     return dict(n_in='1..3', n_out='0..3', hashtype='one symbolic byte (all 256 values)', inIdx='0..n_in (incl. out of range)',
                 subscript='token sequences of <= %d tokens from {OP_CODESEPARATOR, symbolic opcode byte 0x4f..0xff, push of 1..3 symbolic bytes, non-minimal PUSHDATA1/2/4 pushes}'
-                          % (3 if tier == 'quick' else 4), witness='present/absent', tx='mutable and immutable')
+                          % (3 if tier == 'quick' else 4), witness='present/absent', tx='mutable and immutable', history='two digests (two symbolic hash types, two positions) + repeat of the first on one object')
 
 
 def mk_tokens(ctx, shape):
@@ -79,7 +79,34 @@ def h_wrap(ctx, sig, spk, idx, sub, mutable):
     ctx.check(tx.serialize() == before, 'txTo unchanged')
 
 
-HARNESSES = {'raw': h_raw, 'wrap': h_wrap}
+def h_seq(ctx, nin, nout, idx1, idx2, sub, mutable):
+    """history: several digests (arbitrary hash types, two input positions) computed on ONE transaction object;
+    each equals the reference of the transaction's fields, whatever was computed before it"""
+    S = ctx.script
+    f = K.mk_tx_fields(ctx, dict(sig=[1] * nin, spk=[1] * nout, wit=None))
+    tx = K.build_tx(ctx, f, mutable)
+    before = tx.serialize()
+    toks = mk_tokens(ctx, sub)
+    script = S.CScript(SH.tokens_bytes(ctx, toks))
+    stripped = SH.strip_codeseparators(ctx, toks)
+    ht1 = ctx.int('hashtype', 0, 255)
+    ht2 = ctx.int('hashtype2', 0, 255)
+
+    def one(idx, ht, what):
+        (h, err) = S.RawSignatureHash(script, tx, idx, ht)
+        ref = SH.legacy_preimage(ctx, f, stripped, idx, ht)
+        if ref[0] == 'one':
+            ctx.check(ctx.and_(h == ctx.B(SH.ONE), err is not None), 'raw: HASH_ONE + error exactly in the historical cases', detail=what)
+        else:
+            ctx.check(err is None, 'raw: HASH_ONE + error exactly in the historical cases', detail=what)
+            ctx.check(h == ctx.dsha256(ref[1]), 'raw: digest == H(H(reference pre-image))', detail=what)
+    one(idx1, ht1, 'first digest on the object')
+    one(idx2, ht2, 'second digest on the same object')
+    one(idx1, ht1, 'first digest repeated after the second')
+    ctx.check(tx.serialize() == before, 'txTo unchanged')
+
+
+HARNESSES = {'raw': h_raw, 'wrap': h_wrap, 'seq': h_seq}
 
 
 def instances(tier):
@@ -104,4 +131,10 @@ def instances(tier):
                     out.append(dict(h='raw', p=dict(sig=sig, spk=spk, wit=wit, idx=idx, sub=sub, mutable=bool((n + si) % 3 == 0))))
                 out.append(dict(h='wrap', p=dict(sig=sig, spk=spk, idx=idx, sub=subs[n % len(subs)], mutable=bool(n % 2))))
                 n += 1
+    k = 0
+    for nin, nout in ((2, 2), (3, 2), (2, 1)) if tier == 'quick' else ((2, 2), (3, 2), (2, 1), (3, 3), (2, 3)):
+        for idx1 in range(nin):
+            for idx2 in range(nin):
+                out.append(dict(h='seq', p=dict(nin=nin, nout=nout, idx1=idx1, idx2=idx2, sub=('', 'o', '1c')[k % 3], mutable=bool(k % 4 == 3))))
+                k += 1
     return out
